@@ -391,6 +391,15 @@ def offenders(res):
             if h["done_at"] is not None and h["done_at"] != h["cend"] + e:
                 out.append(("finish-instant", "%s: streams end at +%d but the worker finished at +%d" %
                             (name, e, h["done_at"] - h["cend"])))
+    # a worker that, having given its target up, waits a grace period and then sends SIGKILL (repair of
+    # F07-TEARDOWN-WAIT): the grace actually taken, at most one watchdog period per target, is not the hosts' time
+    term, grace = {}, 0
+    for _, now, th, ev in events(res):
+        if ev[0] == "fwd" and ev[2] == "15":
+            term.setdefault(ev[1], now)
+        elif ev[0] == "fwd" and ev[2] == "9" and ev[1] in term:
+            grace += min(now - term.pop(ev[1]), WDOG_POLL)
+    slip += grace
     if status == "ok" and int(m["clock"]) - res["clock0"] > total_bound + slip:
         out.append(("run-not-bounded", "the run took %d virtual seconds, the hosts' own durations and timeouts add up "
                     "to %d" % (int(m["clock"]) - res["clock0"], total_bound)))
@@ -438,6 +447,27 @@ def detect_stopwdog(exe, scratch):
     if res["crash"] is not None or res["M"] is None:
         return False
     return "G" not in [x for x in res["M"].get("alive", "").split(",") if x]
+
+
+def detect_killafter(exe, scratch):
+    """Does a worker that gave its target up at the command timeout make sure the command goes away (wait a grace
+    period, then SIGKILL -- the proposed repair of F07-TEARDOWN-WAIT case (a)), or does it go straight into
+    rcmd_destroy() and wait for as long as the command lives (the tree as it is)?  Decided by behaviour: one target
+    whose command never exits and ignores SIGTERM, command timeout 1: is it sent SIGKILL, and does dsh() return?"""
+    imm = {"conn": ["ok", 0], "out": [[0, 4], [-1, "EOF"]], "err": [[-1, "EOF"]], "life": -1, "ignoreterm": 1}
+    case = mk_case([imm], 1, 2, 1, False, 1, strategy="first")
+    res = run_cases(exe, [case], scratch)[0]
+    if res["crash"] is not None or res["M"] is None:
+        return False
+    killed = any(ev[0] == "fwd" and ev[2] == "9" for _, _, _, ev in events(res))
+    return killed and res["M"].get("status") == "ok"
+
+
+def gave_up(res):
+    """did some worker give its target up at the command timeout in this run (it forwarded SIGTERM to it)?"""
+    n = len(res["case"]["hosts"])
+    return any(th.startswith("W") and ev[0] == "fwd" and ev[2] == "15" and th[1:] == ev[1] and int(ev[1]) < n
+               for _, _, th, ev in events(res))
 
 
 def project(res, variant, selfcheck=False, stopwdog=False):
